@@ -91,7 +91,8 @@ theorem maxOver_congr {n : Nat} {keep keep' : Nat → Bool} {f : Nat → Int}
 the Spec makespan (maximum over the operations of the jobs), in every state. -/
 theorem reward_eq_makespan (i : Inst) (hwf : WF i) (s : State) :
     reward i s = - Spec.Fjsp.makespan i (schedOf s) := by
-  unfold reward Spec.Fjsp.makespan schedOf
+  rw [reward_eq]
+  unfold Spec.Fjsp.makespan schedOf
   have : maxOver i.N (fun o => !i.pad o) s.finish = maxOver i.N (isReal i) s.finish := by
     apply maxOver_congr
     intro o ho
